@@ -3,7 +3,7 @@
    (lexer -> token stream -> parser -> transforms), proofs in proofs/CrashExamples.v. *)
 From Coq Require Import List NArith Bool Arith.
 Import ListNotations.
-From PV Require Import Regex Base LexTables NodeModel ParserBase ParserDecl ParserMain Api CrashExamples LexerProofs.
+From PV Require Import Regex Base LexTables NodeModel ParserBase ParserDecl ParserMain Api CrashExamples LexerProofs LexNoCrash.
 
 (* a stray } is a located ParseError (was an AssertionError before the fix) *)
 Theorem C06_stray_rbrace :
@@ -34,3 +34,9 @@ Theorem C06_lex_terminates : forall text file,
   snd (Lexer.raw_lex (S (length text)) (Lexer.init_lexst file) text) = true.
 Proof. exact lex_terminates. Qed.
 Print Assumptions C06_lex_terminates.
+
+(* the lexer never trips its own `assert msg is not None`: for every text the item stream has no crash item
+   (every error rule of the regenerated rule table carries a message) *)
+Theorem C06_lex_no_crash : forall fuel st rest, Lexer.has_crash (fst (fst (Lexer.raw_lex fuel st rest))) = false.
+Proof. exact lex_no_crash. Qed.
+Print Assumptions C06_lex_no_crash.
